@@ -24,6 +24,7 @@ RULE = (
     "and written to netCDF and reopened (decoded and raw), plus a self-intersecting face.  Oracle: "
     "polygon of each cell from that cell's own coordinates, validity mask, warning, bounding box, union.  "
     "Non-trivial: descending / non-uniform axes, stored bounds, holes, mixed face sizes, bow-ties."
+    ' Also: integer and float32 coordinate axes, overlapping stored bounds, one-based tables whose missing marker is 0, a mesh with unused nodes, one grid per family above 2^16 cells (thorough: above 2^18), input purity and a second look through a copy.'
 )
 LEVEL_TEXT = ('every coordinate-array configuration of the stated space (axis orientations, bounds variants, naming, holes, dry regions, mesh encodings, in memory and reopened from netCDF, bow-tie cells): polygon of each cell from its own coordinates, mask, warning, bounding box, union')
 LEVEL_NOTE = ('GEOS validity/union; CF2D derived polygons judged only where unambiguous; size-1 axes without bounds may be refused')
